@@ -1,6 +1,12 @@
 """C15: load balancing follows the selected policy."""
 import tops
 from props.c20 import OVERLAY
+from engine import EngineHandover
+
+
+class HandoverSmall(EngineHandover):
+    """the last clause of C15 (assigned loop = loop of the callbacks): hand-over replay of a few real multi-loop lives"""
+    ncases = (12, 200)
 
 
 class LBC(tops.Component):
@@ -17,7 +23,7 @@ class LBC(tops.Component):
 
 
 def main(tier, replay):
-    return tops.run("C15", [LBC()], tier,
+    return tops.run("C15", [LBC(), HandoverSmall()], tier,
                     level_text="theorems about a model of the three next() functions for every number of loops, every count vector and every address (Props/C15.lean); tie: T-ops correspondence on the real load_balancer.go + policy oracle. The clause 'the assigned loop runs all callbacks' is decided by the reactor trace checks (C04/C05)",
                     assumptions=["CRC-32 implemented bitwise in Lean (validated against hash/crc32 by the correspondence)", "int is 64 bit, so int(uint32) is never negative"],
                     replay=replay)
